@@ -5,9 +5,11 @@ import (
 	"fmt"
 	"os"
 	"strings"
+	"sync"
 	"time"
 
 	"verif/mc/engine"
+	"verif/mc/env"
 )
 
 // SeamOcc is one dynamic occurrence of a map range during one transition.
@@ -44,20 +46,35 @@ func (d detScenario) Params() map[string]any {
 type detNode struct{ A, B engine.Node }
 
 type detWorker struct {
-	a, b  engine.Worker
-	stats *engine.Stats
+	a, b   engine.Worker
+	oa, ob *env.ObsBuf // what replica a / b handed back to its environment during the current transition
+	stats  *engine.Stats
 }
 
+var detCreate sync.Mutex // replicas are created one at a time so that each one's app objects can be told apart
+
 func (d detScenario) NewWorker(stats *engine.Stats) (engine.Worker, error) {
+	detCreate.Lock()
+	defer detCreate.Unlock()
+	w := &detWorker{stats: stats, oa: env.NewObsBuf(), ob: env.NewObsBuf()}
+	mark := env.AppsCreated()
 	a, err := d.inner.NewWorker(engine.NewStats())
 	if err != nil {
 		return nil, err
 	}
+	for _, app := range env.AppsSince(mark) {
+		env.Observe(app, w.oa)
+	}
+	mark = env.AppsCreated()
 	b, err := d.inner.NewWorker(engine.NewStats())
 	if err != nil {
 		return nil, err
 	}
-	return &detWorker{a: a, b: b, stats: stats}, nil
+	for _, app := range env.AppsSince(mark) {
+		env.Observe(app, w.ob)
+	}
+	w.a, w.b = a, b
+	return w, nil
 }
 
 func (w *detWorker) Root() engine.Node              { return &detNode{A: w.a.Root(), B: w.b.Root()} }
@@ -118,12 +135,16 @@ func (w *detWorker) Apply(n engine.Node, ev string) (engine.Node, []V) {
 	if Seam != nil {
 		Seam.Begin(-1, nil)
 	}
+	w.oa.Reset()
 	ca, _ := w.a.Apply(x.A, ev)
+	obsA, nA := w.oa.Sum(), w.oa.N
 	if Seam != nil {
 		occ = Seam.End()
 		Seam.Begin(-1, nil)
 	}
+	w.ob.Reset()
 	cb, _ := w.b.Apply(x.B, ev)
+	obsB := w.ob.Sum()
 	if Seam != nil {
 		Seam.End()
 	}
@@ -135,8 +156,13 @@ func (w *detWorker) Apply(n engine.Node, ev string) (engine.Node, []V) {
 		return c1 == nil || w1.Hash(c1) == w2.Hash(c2)
 	}
 	w.stats.Count("transition-on-two-replicas")
+	if nA > 0 {
+		w.stats.Count("transition-with-events-compared")
+	}
 	if !same(ca, w.a, cb, w.b) {
 		vs = append(vs, vf("C18", "replica-divergence", "event %s gives different results on two replicas started from identical states", ev))
+	} else if obsA != obsB {
+		vs = append(vs, vf("C18", "replica-divergence:events", "event %s leaves identical states on two replicas but the emitted events / validator updates / accept-reject outcomes differ", ev))
 	}
 	for i, o := range occ {
 		if o.N < 2 {
@@ -148,11 +174,17 @@ func (w *detWorker) Apply(n engine.Node, ev string) (engine.Node, []V) {
 		}
 		for _, p := range perms(o.N) {
 			Seam.Begin(i, p)
+			w.ob.Reset()
 			cd, _ := w.b.Apply(x.B, ev)
+			obsD := w.ob.Sum()
 			Seam.End()
 			w.stats.Count("alternative-order-executed")
 			if !same(ca, w.a, cd, w.b) {
 				vs = append(vs, vf("C18", "map-order-dependence:"+o.Site, "event %s: iterating the map at %s (%d keys) in order %v instead of the canonical order changes the result", ev, o.Site, o.N, p))
+				break
+			}
+			if obsD != obsA {
+				vs = append(vs, vf("C18", "map-order-dependence:events:"+o.Site, "event %s: iterating the map at %s (%d keys) in order %v instead of the canonical order leaves the same state but changes the emitted events / validator updates", ev, o.Site, o.N, p))
 				break
 			}
 		}
